@@ -77,7 +77,9 @@ theorem incdec_agree (t : Ty) (ht : t.isUntyped = false) : incdecY TE t = incdec
 theorem cond_typed_agree (x : Opnd) (hx : x.rv = .none) (hxt : x.ty.isUntyped = false) :
     condY TE x = condG x := by
   obtain ⟨k, k', hk, hk', hrel⟩ := kind_typed x.ty hxt
+  have hni : x.ty.isNil = false := by cases h : x.ty <;> simp_all [Ty.isUntyped, Ty.isNil]
   unfold condY condG kindOf kindIsG
+  simp only [hni, Bool.and_false, Bool.false_eq_true, ↓reduceIte, pure, Res.bind_ok]
   have hnil : ∀ {α : Type} (a b : α), (match x.ty with | .nil => a | _ => b) = b := by
     intro α a b; cases hx' : x.ty <;> simp_all [Ty.isUntyped]
   simp only [hk, hx]
@@ -89,39 +91,41 @@ theorem cond_typed_agree (x : Opnd) (hx : x.rv = .none) (hxt : x.ty.isUntyped = 
   | nil => simp [hty, Ty.isUntyped] at hxt
   | _ => simp_all <;> (cases hb : (k' == Kind.bool) <;> simp_all)
 
-/-- after the repair of F11: whatever the operand (constant or not, typed or untyped), unless it is `nil`,
-    the condition test answers as the specification; the constant shortcut is no longer reached on an error.
+/-- after the repairs of F11 and F12-17: whatever the operand (constant or not, typed or untyped, `nil` included),
+    the condition test answers as the specification; no Go panic is left.
     `hcb`: a go/constant-valued operand is not of boolean type (boolean constants are plain Go bools:
     `RVal.gobool`, `RVal.ubool`; no expression of the fragment builds the excluded combination) -/
-theorem cond_agree (x : Opnd) (hn : x.ty ≠ .nil)
+theorem cond_agree (x : Opnd)
     (hcb : ∀ c, x.rv = .const c → kindIsG (· == .bool) x.ty = false) : condY TE x = condG x := by
   have hg : TE.condBoolGuarded = true := rfl
+  have hr : TE.nilOperandsReported = true := rfl
   unfold condY condG kindOf
-  rw [hg]
+  rw [hg, hr]
   cases hty : x.ty with
-  | nil => exact absurd hty hn
+  | nil => simp [Ty.isNil, Res.bind, bind]
   | iface i m =>
     by_cases hm : m.isEmpty <;> cases hrv : x.rv <;>
-      simp [Ty.kind?, Ty.rtype?, hm, RTy.kind, kindIsG, underKind, Res.bind, bind]
+      simp [Ty.isNil, Ty.kind?, Ty.rtype?, hm, RTy.kind, kindIsG, underKind, Res.bind, bind, pure]
   | _ =>
     cases hrv : x.rv <;>
       (try have hcb' := hcb _ hrv) <;>
-      simp_all [Ty.kind?, Ty.rtype?, RTy.kind, kindIsG, underKind, Res.bind, bind] <;>
+      simp_all [Ty.isNil, Ty.kind?, Ty.rtype?, RTy.kind, kindIsG, underKind, Res.bind, bind, pure] <;>
       (try split) <;> simp_all
 
-/-- type assertions: for every operand but `nil` and every asserted type, `typeAssertionExpr` decides as the
-    specification (on the fragment: methods compared by name, `isBin` false, value receivers, one signature) -/
-theorem assert_agree (typ : Ty) (x : Opnd) (hn : x.ty ≠ .nil) : assertY TE typ x = assertG typ x := by
+/-- type assertions: for EVERY operand (`nil` included since 52cb9ff) and every asserted type, `typeAssertionExpr`
+    decides as the specification (on the fragment: methods compared by name, `isBin` false, value receivers, one signature) -/
+theorem assert_agree (typ : Ty) (x : Opnd) : assertY TE typ x = assertG typ x := by
   have hs : TE.assertSkipMissing = .andBin := rfl
+  have hr : TE.nilOperandsReported = true := rfl
   unfold assertY assertG kindOf
-  rw [hs]
+  rw [hs, hr]
   cases hty : x.ty with
-  | nil => exact absurd hty hn
+  | nil => simp [Ty.isNil, Ty.isIface, Res.bind, bind]
   | iface i m =>
     by_cases hm : m.isEmpty <;> by_cases ht : typ.isIface <;>
-      simp [Ty.kind?, Ty.rtype?, RTy.kind, Ty.isIface, Ty.methods, subset, hm, ht, Res.bind, bind]
+      simp [Ty.isNil, Ty.kind?, Ty.rtype?, RTy.kind, Ty.isIface, Ty.methods, subset, hm, ht, Res.bind, bind, pure]
     all_goals simp_all [List.isEmpty_iff]
-  | _ => simp [Ty.kind?, Ty.rtype?, RTy.kind, Ty.isIface, Res.bind, bind]
+  | _ => simp [Ty.isNil, Ty.kind?, Ty.rtype?, RTy.kind, Ty.isIface, Res.bind, bind, pure]
 
 theorem recv_typed_agree (T : TcFacts) (x : Opnd) (hxt : x.ty.isUntyped = false) : recvY T x = recvG x := by
   unfold recvY recvG kindOf
@@ -399,14 +403,22 @@ theorem ordered_typed (t : Ty) (h : t.isUntyped = false) :
   simp only [hk, hk', predOk_isInt, predOk_isFloat, predOk_isString]
   rcases hrel with rfl | ⟨rfl, rfl⟩ <;> rfl
 
-/-- comparisons of typed non-constant operands of non-interface types that do not collide in reflect
-    and are not channels of different directions -/
+/-- two distinct non-interface types one of which is assignable to the other: a bidirectional channel and a channel
+    of the same element type -/
+theorem assignable_distinct (v t : Ty) (hti : t.isIface = false) (h : assignableTyG v t = true) :
+    v = t ∨ ∃ a d, v = .chan .both a ∧ t = .chan d a := by
+  unfold assignableTyG at h
+  cases v <;> cases t <;> simp_all [Ty.isIface]
+  rename_i d1 a d2 b
+  cases d1 <;> simp_all
+
+/-- comparisons of typed non-constant operands of non-interface types that do not collide in reflect: since 6110e8a /
+    61b9210 (F12-11) channels of different directions are covered too -/
 theorem cmp_typed_agree (op : CmpOp) (x y : Opnd)
     (hx : x.rv = .none) (hy : y.rv = .none)
     (hxt : x.ty.isUntyped = false) (hyt : y.ty.isUntyped = false)
     (hxi : x.ty.isIface = false) (hyi : y.ty.isIface = false)
-    (h2 : reflectCollision x.ty y.ty = false) (h2' : reflectCollision y.ty x.ty = false)
-    (hcd : (assignableTyG x.ty y.ty || assignableTyG y.ty x.ty) = true → x.ty = y.ty) :
+    (h2 : reflectCollision x.ty y.ty = false) (h2' : reflectCollision y.ty x.ty = false) :
     cmpY TE op x y = cmpG op x y := by
   have hc : bothConstant x y = false := by simp [bothConstant, Opnd.isConst, hx]
   have hcg : bothConstantG x y = false := by simp [bothConstantG, Opnd.isConst, hx]
@@ -420,22 +432,37 @@ theorem cmp_typed_agree (op : CmpOp) (x y : Opnd)
   have ha := assignableToY_typed x.ty y.ty hxt hyt (by simp [hxi]) h2
   have hb := assignableToY_typed y.ty x.ty hyt hxt (by simp [hyi]) h2'
   have e1 : TE.ops = FE := rfl
+  have hce : FE.cmpChanExempt = .sameElemOneBidir := rfl
   unfold cmpY cmpG comparisonY
-  simp only [hc, hcg, hnx, hny, hm, hcx, hcy, e1, hx, hy, ha, hb, hxi, hyi, hxt, hyt,
+  simp only [hc, hcg, hnx, hny, hm, hcx, hcy, e1, hx, hy, ha, hb, hxi, hyi, hxt, hyt, hce,
     Bool.false_eq_true, ↓reduceIte, Res.bind_ok, Bool.and_false, Bool.false_and, pure, Bool.not_false, Bool.true_and]
+  have hcases : (assignableTyG x.ty y.ty || assignableTyG y.ty x.ty) = true →
+      x.ty = y.ty ∨ ∃ a d0 d1, x.ty = .chan d0 a ∧ y.ty = .chan d1 a ∧ (d0 = .both ∨ d1 = .both) := by
+    intro h
+    simp only [Bool.or_eq_true] at h
+    rcases h with h | h
+    · rcases assignable_distinct _ _ hyi h with e | ⟨a, d, e1, e2⟩
+      · exact .inl e
+      · exact .inr ⟨a, .both, d, e1, e2, .inl rfl⟩
+    · rcases assignable_distinct _ _ hxi h with e | ⟨a, d, e1, e2⟩
+      · exact .inl e.symm
+      · exact .inr ⟨a, d, .both, e2, e1, .inr rfl⟩
   cases hg1 : assignableTyG x.ty y.ty <;> cases hg2 : assignableTyG y.ty x.ty
   · simp [Res.bind]
   all_goals
-    have heq : x.ty = y.ty := hcd (by simp [hg1, hg2])
-    have hc1 := comparable_typed x.ty hxt
-    have ho1 := ordered_typed x.ty hxt
-    obtain ⟨r, hr⟩ := rtype_typed x.ty hxt
-    rw [hr] at hc1
-    simp only at hc1
-    rw [← heq]
-    cases op <;> simp [hr, hc1, ho1, Res.bind, hnx] <;>
-      (try (cases comparableG x.ty <;> rfl)) <;> (try (cases orderedG x.ty <;> rfl))
-
+    rcases hcases (by simp [hg1, hg2]) with heq | ⟨a, d0, d1, ex, ey, hd⟩
+    · have hc1 := comparable_typed x.ty hxt
+      have ho1 := ordered_typed x.ty hxt
+      obtain ⟨r, hr⟩ := rtype_typed x.ty hxt
+      rw [hr] at hc1
+      simp only at hc1
+      rw [← heq]
+      cases op <;> simp [hr, hc1, ho1, Res.bind, hnx] <;>
+        (try (cases comparableG x.ty <;> rfl)) <;> (try (cases orderedG x.ty <;> rfl))
+    · rw [ex, ey]
+      cases op <;> cases d0 <;> cases d1 <;> simp at hd <;>
+        simp [typeDefinedT, Ty.isNil, Ty.rtype?, RTy.comparable, comparableG, orderedG, kindIsG, underKind,
+          isIntT, isFloatT, isStringT, kindIs, Ty.kind?, RTy.kind, predOk_isInt, predOk_isFloat, predOk_isString, Res.bind, bind]
 
 /-- index expressions on a slice, array or string with a typed non-constant index -/
 theorem index_typed_agree (a i : Opnd) (ha : a.rv = .none) (hi : i.rv = .none) (hit : i.ty.isUntyped = false)
@@ -470,14 +497,15 @@ theorem callValue_agree (rets : List STy) : callValueY TE false rets = callValue
   | nil => rfl
   | cons r rest => cases rest <;> rfl
 
-/-- …as the operand of a conversion the two sides agree exactly on the calls with one result (F12-21) -/
-theorem callValue_conv_agree (rets : List STy) : (callValueY TE true rets = callValueG true rets) ↔ rets.length = 1 := by
+/-- …and, since 29b7aa6 (F12-21), as the operand of a conversion too: a single-value context on both sides, for EVERY signature -/
+theorem callValue_conv_agree (rets : List STy) : callValueY TE true rets = callValueG true rets := by
   have h : TE.callValueChecked = true := rfl
+  have h2 : TE.callValueConvChecked = true := rfl
   unfold callValueY callValueG
-  rw [h]
+  rw [h, h2]
   cases rets with
-  | nil => simp
-  | cons r rest => cases rest <;> simp
+  | nil => rfl
+  | cons r rest => cases rest <;> rfl
 
 /-- F12-7 (82e65a0): a send statement is the direction test plus the assignment of the value to the element type.
     For every channel operand but `nil` the rule agrees with the specification as soon as the assignment check
@@ -612,13 +640,14 @@ theorem index_negative_rejected (T : TcFacts) (hT : T.indexNegChecked = true) (i
 
 /-! ### array and slice literals: the index discipline of `arrayLitExpr` -/
 
-/-- for every literal of an array type of length ≥ 1 (`bound = some length`) or of a slice type (`bound = none`,
-    `typ.length = 0`), whatever the mix of keyed and positional elements, `arrayLitExpr` accepts exactly the index
-    sequences the specification allows (running index = previous key + 1, every index below the length, no
+/-- for every literal of an array type of ANY length (`bound = some length`; length 0 included since 5556d48) or of a
+    slice type (`bound = none`), whatever the mix of keyed and positional elements, `arrayLitExpr` accepts exactly the
+    index sequences the specification allows (running index = previous key + 1, every index below the length, no
     duplicate). The position `i` of the element in the literal plays no role (it does under the seeded change of
-    seeded/C12-3, fact `.loopPosition`: `arraylit_loop_position_accepts`). -/
+    seeded/C12-3, fact `.loopPosition`). -/
 theorem arrayLit_agree (T : TcFacts) (hm : T.arrayLitBound = .runningIndex) (hn : T.indexNegChecked = true)
-    (isArray : Bool) (length : Nat) (hl : isArray = true → length ≥ 1) (hs : isArray = false → length = 0) :
+    (hz : T.indexZeroLenChecked = true) (hu : T.arrayLitSliceUnbounded = true)
+    (isArray : Bool) (length : Nat) :
     ∀ (es : List LitElem) (i index : Nat) (vis : List Nat),
       arrayLitY T isArray length es i index vis =
         arrayLitG (if isArray then some length else none) es index vis
@@ -627,18 +656,14 @@ theorem arrayLit_agree (T : TcFacts) (hm : T.arrayLitBound = .runningIndex) (hn 
     unfold arrayLitY arrayLitG
     by_cases hk : k < 0
     · simp [hk, hn]
-    · simp only [hk, ↓reduceIte]
+    · simp only [hk, ↓reduceIte, hz, hu]
       cases isArray with
       | true =>
-        have h1 := hl rfl
-        have ih := arrayLit_agree T hm hn true length hl hs rest (i + 1) (k.toNat + 1) (k.toNat :: vis)
+        have ih := arrayLit_agree T hm hn hz hu true length rest (i + 1) (k.toNat + 1) (k.toNat :: vis)
         simp only [↓reduceIte] at ih
-        have : (decide (length ≥ 1) && decide (k.toNat ≥ length)) = decide (k.toNat ≥ length) := by simp; omega
-        simp only [this, ↓reduceIte, ih]
+        simp [ih]
       | false =>
-        have h0 := hs rfl
-        subst h0
-        have ih := arrayLit_agree T hm hn false 0 hl hs rest (i + 1) (k.toNat + 1) (k.toNat :: vis)
+        have ih := arrayLit_agree T hm hn hz hu false length rest (i + 1) (k.toNat + 1) (k.toNat :: vis)
         simp only [Bool.false_eq_true, ↓reduceIte] at ih
         simp [ih]
   | .pos :: rest, i, index, vis => by
@@ -646,11 +671,11 @@ theorem arrayLit_agree (T : TcFacts) (hm : T.arrayLitBound = .runningIndex) (hn 
     rw [hm]
     cases isArray with
     | true =>
-      have ih := arrayLit_agree T hm hn true length hl hs rest (i + 1) (index + 1) (index :: vis)
+      have ih := arrayLit_agree T hm hn hz hu true length rest (i + 1) (index + 1) (index :: vis)
       simp only [↓reduceIte] at ih
       simp [ih]
     | false =>
-      have ih := arrayLit_agree T hm hn false length hl hs rest (i + 1) (index + 1) (index :: vis)
+      have ih := arrayLit_agree T hm hn hz hu false length rest (i + 1) (index + 1) (index :: vis)
       simp only [Bool.false_eq_true, ↓reduceIte] at ih
       simp [ih]
 
